@@ -53,6 +53,18 @@ CHECKS = {
          "On toy curves whose SEC blobs are 2-5 bytes TLC enumerates EVERY byte string of length 0..2 (thorough 0..3: 17M blobs) with its verdict and decoded point, and all DER strings over a structural alphabet up to length 8; pycoin's sec_to_public_pair (strict and non-strict), Key/from_sec, sigdecode_der/sigencode_der must agree; on secp256k1 the same (length, prefix, x<p, on-curve, parity) classes are concretised, exponents {0,1,n-1,n,2^256-1} and off-curve points must raise the documented errors, and WIF round trips (compression flag, hash160, address) are checked on 48 networks; TLC lemmas give unique encoding and Decode(Encode(x)) = x; 435 (3,902) seeded sessions validated as traces.",
          "Trusted: TLC/SANY. Off-curve uncompressed blobs are demanded to be refused by Key.from_sec/Key() and verify(), not by sec_to_public_pair itself (the property's anchors place on-curve validation in Key); lenient strict-DER decoding beyond trailing bytes is counted, not demanded. GRS-family networks cannot be imported here.",
          "DESIGN.md section 4 C10, notes/C10.md"),
+ "C08": ("TLA+ specs Address (AddrOf/Reads rules over the real 51-network prefix table handed to TLC as data), Classify (Kind(script) = K iff Build(K, params) = script over token scripts); TLC finds every offending (network pair, kind) on the real table; TLC-enumerated addresses, scripts and cross pairs replayed on pycoin; recorded sessions validated by TLC trace spec",
+         "TLC evaluates on the real table of 51 networks: no two kinds of a network share (prefix, payload length), Reads(AddrOf(script)) = script, and for all ordered pairs (N, M) that M accepts N's address only where M would produce the same string - listing every offending pair; it enumerates token scripts to 3 (thorough 4) tokens plus the edit neighbourhood of the templates for faithful classification; every case is executed on for_script / parse.address / key, BIP49, BIP84 address() / info_for_script on all networks; 400 (4,000) seeded sessions validated as traces. 24 table collisions between real coin parameters (e.g. BTG P2SH = ARG P2PKH = 0x17) are genuine and unfixable: known findings.",
+         "Trusted: TLC/SANY, hashlib. The prefix table is configuration read from pycoin.symbols (a consistent change of one unused prefix is not a violation); Groestlcoin-family Base58 needs an absent library. Scripts of 6 tokens not exhaustive.",
+         "DESIGN.md section 4 C08, notes/C08.md"),
+ "C18": ("TLA+ spec ParseDispatch (text classes x entry points -> None or Obj(kind, value), kind separation and faithfulness rules) over the real prefix table; TLC model on the real table; TLC-enumerated texts x 35 entry points replayed under try/except; hypothesis-generated unicode for totality; recorded sessions validated by TLC trace spec",
+         "TLC enumerates 6,998 (11,768) text structures - checksummed Base58 by prefix x payload length x content class, Bech32 by hrp/version/length, colon forms, numeric forms, x/y and x,even pairs, hex SEC, token scripts - for every network and states for each of the 35 entry points whether None or which object must result, that no (prefix, length) class is read as two checksummed kinds, and that what is returned re-serialises to text parsing to an equal object; every (text, entry point) pair is executed on pycoin (any exception violates totality), plus 168k (1.34M) seeded hypothesis strings for totality; 300 (2,500) sessions validated as traces.",
+         "Trusted: TLC/SANY, hashlib, hypothesis (derandomized). Groestlcoin-family outcomes are unconstrained (library absent); catch-all dispatch order, hybrid SEC and version/key-type mismatches are left open (pycoin's own tests rely on them).",
+         "DESIGN.md section 4 C18, notes/C18.md"),
+ "C09": ("TLA+ specs BIP32 (CKDpriv/CKDpub over uninterpreted HMAC-SHA512 terms with symbolic key sums, 78-byte serialisation), BIP32Session (sub-key cache with hit/miss actions), Subpaths (path-range grammar machine), ExtKeyText (version table, text form), ElectrumKD; TLC lemmas (commutation, cache transparency); TLC-enumerated paths, sessions, ranges and texts evaluated by a stdlib evaluator (hmac, affine secp256k1 reference) and replayed on pycoin; recorded sessions validated by TLC trace spec; official BIP32 vectors as ground truth",
+         "TLC proves Pub . CKDpriv = CKDpub . Pub along all paths of depth <= 3 over {0, 1, 2^24, 2^31-1} x {normal, hardened}, metadata invariants, refusal of hardened-from-public, and that results are independent of the cache history for every order of up to 3-4 calls (two deliberately broken cache models violate it); each path, session, path-range spelling, extended-key text (bip32/49/84 on 48 networks) and Electrum derivation TLC prints is evaluated (HMAC by hmac, k*G by an affine reference cross-checked with pycoin both ways) and compared with hwif, secret_exponent, public_pair, chain_code, depth, fingerprint, child index on long-lived and fresh nodes; all 24 official xprv/xpub strings are reproduced first; 150 (1,500) seeded sessions (depth to ~40, random 31-bit indices) validated as traces with pycoin's real HMAC calls intercepted.",
+         "Trusted: TLC/SANY, hmac/hashlib, the affine reference curve. The IL >= n branch (probability < 2^-127) is never entered. ExtKeyText.Versions snapshots pycoin.symbols (BTC/XTN/LTC match BIP32/SLIP-132). GRS-family text needs an absent library.",
+         "DESIGN.md section 4 C09, notes/C09.md"),
 }
 
 NOT_APPLICABLE = {
